@@ -50,6 +50,69 @@ mod bytecount {
         ensures r == spec_count(haystack@, needle)
     { unimplemented!() }
 }
+
+// trusted stub of crate::alphabets::Alphabet (bit_set based)
+pub mod alphabets {
+    use vstd::prelude::*;
+    #[verifier::external_body]
+    pub struct BitSet { _p: () }
+    #[verifier::external_body]
+    pub struct BitSetIter<'a> { _p: &'a () }
+    pub trait CollectTarget: Sized { spec fn as_seq(&self) -> Seq<usize>; }
+    impl CollectTarget for Vec<usize> { open spec fn as_seq(&self) -> Seq<usize> { self@ } }
+    impl BitSet {
+        pub uninterp spec fn members(&self) -> Set<usize>;
+        #[verifier::external_body]
+        pub fn iter(&self) -> (r: BitSetIter<'_>) ensures r.members() == self.members() { unimplemented!() }
+    }
+    impl<'a> BitSetIter<'a> {
+        pub uninterp spec fn members(&self) -> Set<usize>;
+        /// ascending, duplicate-free list of the members
+        #[verifier::external_body]
+        pub fn collect<B: CollectTarget>(self) -> (r: B)
+            ensures forall|x: usize| r.as_seq().contains(x) <==> self.members().contains(x),
+                forall|i: int, j: int| 0 <= i < j < r.as_seq().len() ==> r.as_seq()[i] < r.as_seq()[j],
+        { unimplemented!() }
+    }
+    pub struct Alphabet { pub symbols: BitSet }
+    impl Alphabet {
+        pub open spec fn has(&self, a: u8) -> bool { self.symbols.members().contains(a as usize) }
+        pub open spec fn bytes_only(&self) -> bool { forall|x: usize| self.symbols.members().contains(x) ==> x < 256 }
+        #[verifier::external_body]
+        pub fn max_symbol(&self) -> (r: Option<u8>)
+            requires self.bytes_only()
+            ensures r is None <==> self.symbols.members().len() == 0,
+                r is Some ==> self.has(r->0) && forall|a: u8| self.has(a) ==> a <= r->0,
+        { unimplemented!() }
+        #[verifier::external_body]
+        pub fn is_word(&self, text: &[u8; 1]) -> (r: bool) ensures r == self.has(text@[0]) { unimplemented!() }
+    }
+}
+use alphabets::Alphabet;
+
+/// number of checkpoints after processing rows 0..=i is i/k + 1; a new one exactly when i % k == 0
+pub proof fn lemma_ckpt(i: int, k: int)
+    requires i >= 0, k >= 1
+    ensures i % k == 0 ==> (if i == 0 { 0 } else { (i - 1) / k + 1 }) + 1 == i / k + 1 && (i / k) * k == i,
+        i % k != 0 ==> (if i == 0 { 0 } else { (i - 1) / k + 1 }) == i / k + 1,
+{
+    lemma_fundamental_div_mod(i, k); lemma_mod_bound(i, k);
+    lemma_mul_is_commutative(k, i / k);
+    if i > 0 {
+        lemma_fundamental_div_mod(i - 1, k); lemma_mod_bound(i - 1, k);
+        let q = i / k; let r = i % k;
+        if r == 0 {
+            assert((q - 1) * k == q * k - k) by (nonlinear_arith);
+            lemma_fundamental_div_mod_converse(i - 1, k, q - 1, k - 1);
+        } else {
+            lemma_fundamental_div_mod_converse(i - 1, k, q, r - 1);
+        }
+    }
+}
+pub open spec fn nck(i: int, k: int) -> int { if i == 0 { 0 } else { (i - 1) / k + 1 } }
+pub open spec fn occ_ok(occ: Seq<Vec<usize>>, bwt: Seq<u8>, a: int, k: int, len: int) -> bool {
+    occ[a]@.len() == len && forall|q: int| 0 <= q < len ==> #[trigger] occ[a]@[q] == pc(bwt, q * k, a as u8)
+}
 // ---------------- end prelude ----------------
 
 pub type BWTSlice = [u8];
@@ -66,6 +129,110 @@ impl Occ {
         &&& bwt.len() >= 1
         &&& self.occ[a as int].len() == (bwt.len() - 1) / (self.k as int) + 1
         &&& forall|i: int| 0 <= i < self.occ[a as int].len() ==> #[trigger] self.occ[a as int][i] == pc(bwt, i * (self.k as int), a)
+    }
+
+    pub fn new(bwt: &BWTSlice, k: u32, alphabet: &Alphabet) -> (res: Self)
+        requires k >= 1, 1 <= bwt.len() < 0x7fff_ffff_ffff_ffff, alphabet.bytes_only(), alphabet.symbols.members().len() > 0,
+            forall|i: int| 0 <= i < bwt.len() ==> alphabet.has(#[trigger] bwt[i]),
+        ensures forall|a: u8| alphabet.has(a) ==> res.wf_for(bwt@, a),
+    {
+        let n = bwt.len();
+        let m = alphabet
+            .max_symbol()
+            .expect("Expecting non-empty alphabet.") as usize
+            + 1;
+        let mut alpha = alphabet.symbols.iter().collect::<Vec<usize>>();
+        let ghost alpha0 = alpha@;
+        proof {
+            assert(alphabets::CollectTarget::as_seq(&alpha) == alpha@);
+            assert forall|i: int, j: int| 0 <= i < j < alpha0.len() implies alpha0[i] < alpha0[j] by { }
+        }
+        // include sentinel '$'
+        if (b'$' as usize) < m && !alphabet.is_word(&[b'$']) {
+            alpha.push(b'$' as usize);
+        }
+        proof {
+            // alpha: distinct symbols below m, containing the whole alphabet
+            assert forall|i: int| 0 <= i < alpha@.len() implies alpha@[i] < m by {
+                if i < alpha0.len() {
+                    let x = alpha0[i];
+                    assert(alpha0.contains(x));
+                    assert(alphabet.symbols.members().contains(x));
+                    assert(x < 256);
+                    assert(alphabet.has(x as u8));
+                }
+            }
+            assert forall|i: int, j: int| 0 <= i < j < alpha@.len() implies alpha@[i] != alpha@[j] by {
+                if j < alpha0.len() {
+                    assert(alpha0[i] < alpha0[j]);
+                } else {
+                    let x = alpha0[i];
+                    assert(alpha0.contains(x));
+                    assert(alphabet.symbols.members().contains(x));
+                    assert(alpha@.len() == alpha0.len() + 1);
+                    assert(alpha@[j] == 36);
+                    assert(!alphabet.has(36u8));
+                    if x == 36 { assert(alphabet.has(36u8)); }
+                }
+            }
+            assert forall|a: u8| alphabet.has(a) implies alpha@.contains(a as usize) by {
+                assert(alpha0.contains(a as usize));
+                let i = choose|i: int| 0 <= i < alpha0.len() && alpha0[i] == a as usize;
+                assert(alpha@[i] == a as usize);
+            }
+        }
+        let mut occ: Vec<Vec<usize>> = vec![Vec::new(); m];
+        let mut curr_occ = vec![0usize; m];
+
+        // characters not in the alphabet won't take up much space
+        for a in it: alpha.iter()
+            invariant occ.len() == m, k >= 1, forall|i: int| 0 <= i < alpha@.len() ==> alpha@[i] < m,
+                forall|x: int| 0 <= x < m ==> (#[trigger] occ@[x])@.len() == 0,
+        { let a = *a;
+            occ[a].reserve(n / k as usize);
+        }
+
+        for i in 0..bwt.len()
+            invariant occ.len() == m, curr_occ.len() == m, n == bwt.len(), k >= 1, m <= 256, n < 0x7fff_ffff_ffff_ffff,
+                forall|j: int| 0 <= j < alpha@.len() ==> alpha@[j] < m,
+                forall|i2: int, j: int| 0 <= i2 < j < alpha@.len() ==> alpha@[i2] != alpha@[j],
+                forall|j: int| 0 <= j < bwt.len() ==> (#[trigger] bwt[j] as int) < m,
+                forall|c: int| 0 <= c < m ==> #[trigger] curr_occ@[c] == count(bwt@.subrange(0, i as int), c as u8),
+                forall|x: int| 0 <= x < alpha@.len() ==> occ_ok(occ@, bwt@, #[trigger] alpha@[x] as int, k as int, nck(i as int, k as int)),
+        { let c = bwt[i];
+            proof {
+                count_bound(bwt@.subrange(0, i as int), c);
+                assert(bwt@.subrange(0, i + 1).drop_last() =~= bwt@.subrange(0, i as int));
+            }
+            curr_occ[c as usize] += 1;
+            proof {
+                assert forall|cc: int| 0 <= cc < m implies #[trigger] curr_occ@[cc] == count(bwt@.subrange(0, i + 1), cc as u8) by { }
+            }
+
+            if i % k as usize == 0 {
+                // only visit characters in the alphabet
+                let ghost occ0 = occ@;
+                for a in it2: alpha.iter()
+                    invariant occ.len() == m, curr_occ.len() == m,
+                        forall|j: int| 0 <= j < alpha@.len() ==> alpha@[j] < m,
+                        forall|i2: int, j: int| 0 <= i2 < j < alpha@.len() ==> alpha@[i2] != alpha@[j],
+                        forall|x: int| 0 <= x < alpha@.len() ==>
+                            occ@[#[trigger] alpha@[x] as int]@ == (if x < it2.index@ { occ0[alpha@[x] as int]@.push(curr_occ@[alpha@[x] as int]) } else { occ0[alpha@[x] as int]@ }),
+                { let a = *a;
+                    occ[a].push(curr_occ[a]);
+                }
+            }
+            proof {
+                let kk = k as int; let ii = i as int;
+                lemma_fundamental_div_mod(ii, kk); lemma_mod_bound(ii, kk);
+                if ii > 0 { lemma_fundamental_div_mod(ii - 1, kk); lemma_mod_bound(ii - 1, kk); }
+                assert forall|x: int| 0 <= x < alpha@.len() implies occ_ok(occ@, bwt@, #[trigger] alpha@[x] as int, kk, nck(ii + 1, kk)) by {
+                    lemma_ckpt(ii, kk);
+                }
+            }
+        }
+
+        Occ { occ, k }
     }
 
     pub fn get(&self, bwt: &BWTSlice, r: usize, a: u8) -> (res: usize)
